@@ -352,6 +352,8 @@ class _Writer:
             if (isinstance(a, ast.Subscript) and norm(a.slice) == "0" and isinstance(a.value, ast.Call) and isinstance(a.value.func, ast.Attribute) and a.value.func.attr == "encode"
                     and [norm(x) for x in a.value.args] == ["self._encoding"] and self.ev(a.value.func.value, env) == (("char",),)):
                 return (("hex",),)
+            if isinstance(a, ast.Call) and call_name(a) == "ord" and len(a.args) == 1 and self.ev(a.args[0], env) == (("char",),):
+                return (("code point instead of the byte of the item's codec",),)
             raise _Unknown(norm(e))
         raise _Unknown(norm(e))
 
